@@ -32,7 +32,9 @@ SMILES_CHARS = list("CNOSPFIBcnosp[]()=#:/\\.-+@H123456789%0$*~{}'\"`;,<>&^|?!")
     "\ud800", "%٣٣", "H٣"]
 SMILES_SEEDS = ['C1=CC=CC=C1', 'c1ccccc1', 'CC(C)(C)C', 'C/C=C\\C', '[C@@H](F)(Cl)Br', 'c1ccc2ccccc2c1', 'C%10CC%10',
                 '[Fe+2]', 'O=c1cccc[nH]1', 'C.C', 'F/C=C/F', 'C12CC1C2', 'C1CC1', 'c1ccc[se]1', 'N1C=CC=C1', 'C#N',
-                '[NH4+].[Cl-]', 'C(=O)([O-])c1ccccc1', 'c1cc[cH-]c1', 'C1=CC=C2C(=C1)C=CC=C2', '[13CH4]', 'C[N+](C)(C)C']
+                '[NH4+].[Cl-]', 'C(=O)([O-])c1ccccc1', 'c1cc[cH-]c1', 'C1=CC=C2C(=C1)C=CC=C2', '[13CH4]', 'C[N+](C)(C)C',
+                '[P@]1(F)(Cl)(Br)CCC1', 'C[S@]1(F)(F)(F)CCC1', '[C@]1(F)(Cl)(Br)CC1', 'F[S@@](F)(F)(F)(F)C1CC1', 'C[P@@]12(F)(Cl)CCC1CC2',
+                'O1CC([C@@H]21)CCN2', 'C([C@H]12)(F)CCN2CCO1', 'C1CCO[C@](F)(Cl)1', 'C(CCC1)(F)1', 'c1c[nH]c[nH]1', 'c12ccccc1oco2']
 
 
 def random_chars(rng, pool, maxlen=40):
